@@ -38,8 +38,10 @@ def run_property(pid, tier, root, write=True, out=sys.stdout, evidence_dir=None,
         chk.facts["explanation"] = mod.EXPLANATION
         chk.undecided = list(getattr(mod, "UNDECIDED", []))
         mod.run(chk, repo)
-        if tier == "thorough" and hasattr(mod, "thorough"):
-            extra = mod.thorough(chk, repo)
+        if tier == "thorough":
+            extra = mod.thorough(chk, repo) if hasattr(mod, "thorough") else {}
+            extra = dict(extra or {})
+            extra.update(_thorough_generic(chk, repo, pid, root))
         if not chk.obls:
             raise core.AnalysisError("no obligation was generated - every rule has gone blind")
         if chk.pending_errors:
@@ -56,6 +58,46 @@ def run_property(pid, tier, root, write=True, out=sys.stdout, evidence_dir=None,
     status, ev = core.finish(chk, t0, seed, error=error, extra_cov=extra, out=out, write=write,
                              evidence_dir=evidence_dir, replay_dir=replay_dir)
     return status
+
+
+def _thorough_generic(chk, repo, pid, root):
+    """Thorough tier, common part: (1) package-wide sweep of the generic rules (PEP-479 escape analysis) with
+    non-anchored hits reported as notes; (2) the seeded-fault self-test of this property's checker on scratch copies
+    (mutants, reverse patches of the fix commits, independently seeded faults, benign twins).  Self-test results are
+    evidence about the checker only: the exit status still comes from the analysis of the real tree."""
+    out = {}
+    try:
+        from sa.e3 import E3, describe
+        e3 = E3([(m.name, m.tree) for m in repo.modules.values()])
+        hits = []
+        for m in repo.modules.values():
+            for s in e3.scan(m.tree):
+                if s.escapes:
+                    hits.append("%s:%s %s" % (m.relpath, core.enclosing_qual(s.node), describe(s)))
+        out["package_wide_stopiteration_escapes"] = hits
+        for h in hits:
+            chk.note("E3", h.split(" ")[0], "package-wide sweep: " + h)
+    except Exception as ex:   # pragma: no cover
+        out["package_wide_sweep_error"] = str(ex)
+    try:
+        sys.path.insert(0, HERE)
+        from selftest import run as st
+        from selftest.mutants import MUTANTS
+        from concurrent.futures import ThreadPoolExecutor
+        muts = [m for m in list(MUTANTS) + st.load_patches(root) if m["prop"] == pid]
+        with ThreadPoolExecutor(min(16, os.cpu_count() or 4)) as ex:
+            results = list(ex.map(lambda m: st.run_one(m, root), muts))
+        tally = {}
+        for r in results:
+            tally[r["outcome"]] = tally.get(r["outcome"], 0) + 1
+        out["selftest"] = {"mutants": len(results), "tally": tally,
+                           "not_as_expected": [{k: r.get(k) for k in ("id", "outcome", "rules_fired", "detail")}
+                                               for r in results if r["outcome"] not in ("ok", "caught")],
+                           "caught": [{"id": r["id"], "rules": r.get("rules_fired")} for r in results if r["outcome"] == "caught"],
+                           "benign_silent": [r["id"] for r in results if r["outcome"] == "ok"]}
+    except Exception as ex:   # pragma: no cover
+        out["selftest_error"] = "%s: %s" % (type(ex).__name__, ex)
+    return out
 
 
 def replay(path, root):
